@@ -12,10 +12,11 @@ THEOREMS = [
     'C06_order_euler', 'C06_order_cn_rk2', 'C06_order_cn_rk3', 'C06_order_cn_rk4', 'C06_order_sil3',
     'C06_order_decider_sound', 'C06_rk4_near_carpenter_kennedy',
     'C06_linear_taylor_series', 'C06_leapfrog_second_order_series',
-    'C06_imex_is_ark', 'C06_stepfn_is_ark_linear_series_partial',
+    'C06_imex_is_ark', 'C06_lowstorage_is_ark', 'C06_direct_schemes_are_ark',
+    'C06_imex_reduces_to_explicit', 'C06_imex_reduces_to_implicit',
     'C06_reduces_to_explicit', 'C06_reduces_to_implicit',
     'C06_A_stable_backward_euler', 'C06_A_stable_cn_lowstorage', 'C06_A_stable_cn_rk2',
-    'C06_A_stable_leapfrog', 'C06_A_stable_leapfrog_default',
+    'C06_A_stable_sil3', 'C06_A_stable_leapfrog', 'C06_A_stable_leapfrog_default',
     'C06_lengths_validated', 'C06_tableau_validated',
     'C06_hyps_satisfiable',
 ]
@@ -23,16 +24,19 @@ LEVEL = 'proof'
 LEVEL_TEXT = ('machine-checked theorems (Coq) on the coefficients regenerated from time_integration.py each run: '
               'additive-RK order conditions (exact, or |residual| <= 1e-13 for the 13-digit decimals) up to the design '
               'order and failure of the next order; bivariate Taylor coefficients of the linear one-step multiplier '
-              '(formal power series); imex_runge_kutta interpreter (zero skipping, lazy stages) = additive RK step for every '
-              'tableau; reduction to the explicit / implicit scheme (Euler pair, CN-RK2, every low-storage '
-              'coefficient set); |r(0,z)| <= 1 for all Re z <= 0 over the reals (backward Euler, CN-RK2, every '
-              'Crank-Nicolson chain with non-decreasing alphas incl. the generated RK3/RK4 sets, leapfrog alpha >= 1/2); '
+              '(formal power series); every step function is an additive RK step in Butcher form, for every field, '
+              'module, nonlinear F and G: imex_runge_kutta interpreter (zero skipping, lazy stages) for every tableau, '
+              'low-storage 2N+CN scheme = ark_step(lowstorage_to_butcher) for every coefficient list, Euler pair and CN-RK2 '
+              'on their tableaux; reduction to the explicit RK / DIRK / CN-chain / backward-Euler scheme (all six schemes); '
+              '|r(0,z)| <= 1 for all dt >= 0, Re z <= 0 over the reals: backward Euler, CN-RK2, every Crank-Nicolson chain '
+              'with non-decreasing alphas incl. the generated RK3/RK4 sets, SIL3 (stability function derived from the '
+              'generated a_im/b_im, polynomial certificate), leapfrog alpha >= 1/2; '
               'length validation accepts exactly the consistent shapes; model executed against the implementation')
 LEVEL_NOTE = ('theorems are about Model/Integrators.v with the coefficients of Gen/Tableaux.v (translated from the source '
               'each run); "order conditions => order for every smooth F" (Butcher / Kennedy-Carpenter) is cited, not '
-              'formalised; nonlinear order is additionally measured on the implementation by step halving; NOT proved in Coq '
-              '(dynamic evidence only): A-stability of SIL3; low-storage step = additive RK step of its Butcher form '
-              'for nonlinear F (proved for the linear test equation as a series identity only)')
+              'formalised (nonlinear order is additionally measured on the implementation by step halving); the evaluation '
+              'homomorphism from formal power series to scalars behind linear_taylor is cited; G_inv enters the '
+              'Butcher-form theorems through the hypothesis that y = G_inv(x, eta) solves y = x + eta G(y)')
 TECHNIQUE = ('Coq theorems over an executable Gallina model with source-regenerated tableaux + differential '
              'correspondence (extracted OCaml vs implementation) + oracles on the implementation')
 
@@ -437,6 +441,11 @@ def r_reduction(ctx, a):
         ref = u + dt * sum(b_ex[j] * f[j] for j in range(s))
     ctx.oracle_close('with vanishing implicit part the step is the underlying explicit method (%s)' % SCHEMES[sc],
                      out, ref, scale=b.scale())
+    z = {'d': d, 'A': a['A'], 'B': (0 * B).tolist(), 'p': a['p'], 'u': a['u'], 'dt': dt}
+    if sc in (3, 4):
+        ctx.corr('G=0: implementation vs model ls_explicit_loop (%s)' % SCHEMES[sc], out, model_step(ctx, 13, z, extra_ints=[sc]), scale=b.scale())
+    if sc == 5:
+        ctx.corr('G=0: implementation vs model erk_step (imex_rk_sil3)', out, model_step(ctx, 11, z), scale=b.scale())
     # (b) F = 0: backward Euler / Crank-Nicolson chain / DIRK
     b = Bench(A, B, 0 * p, dt, f_zero=True)
     out = impl_step(sc, b, dt, u)
@@ -458,6 +467,11 @@ def r_reduction(ctx, a):
         ref = u + dt * sum(b_im[j] * g[j] for j in range(s))
     ctx.oracle_close('with vanishing explicit part the step is the underlying implicit method (%s)' % SCHEMES[sc],
                      out, ref, scale=b.scale())
+    z = {'d': d, 'A': (0 * A).tolist(), 'B': a['B'], 'p': (0 * p).tolist(), 'u': a['u'], 'dt': dt}
+    if sc in (3, 4):
+        ctx.corr('F=0: implementation vs model cn_chain (%s)' % SCHEMES[sc], out, model_step(ctx, 14, z, extra_ints=[sc]), scale=b.scale())
+    if sc == 5:
+        ctx.corr('F=0: implementation vs model dirk_step (imex_rk_sil3)', out, model_step(ctx, 12, z), scale=b.scale())
 
 
 def r_ls_vs_ark(ctx, a):
